@@ -127,6 +127,31 @@ Fixpoint star_in_brackets (depth : Z) (ts : list tok) : bool :=
   | _ :: r => star_in_brackets depth r
   end.
 
+(* does the text contain a connector at all?  (compile_str can only meet the uniqueness check of ObserverGraph below
+   a connector: a refusal of a connector-free text such as "a, a" is not the listed finding F17) *)
+Fixpoint has_series (t : tree) : bool :=
+  match t with
+  | TSeries _ _ _ => true
+  | TPar l r => has_series l || has_series r
+  | _ => false
+  end.
+
+(* where a repeated pattern sits: among the alternatives that follow a connector (the right operand of some series:
+   "a.[b,b]", "a.[b,b].c" - there the compiled alternatives become children of one ObserverGraph node, finding F17), or
+   elsewhere (top level "x.y, x.y", a leading group "[a,a]:b") *)
+Fixpoint dup_right (t : tree) : bool :=
+  match t with
+  | TSeries l _ r => has_dup (doc_paths r) || dup_right l || dup_right r
+  | TPar l r => dup_right l || dup_right r
+  | _ => false
+  end.
+Fixpoint dup_right_e (e : expr) : bool :=
+  match e with
+  | ESeries a b => has_dup (paths b) || dup_right_e a || dup_right_e b
+  | EPar a b => dup_right_e a || dup_right_e b
+  | ESingle _ => false
+  end.
+
 Definition is_rejected (o : outcome) : bool := match o with Rejected => true | _ => false end.
 
 (* the documented recogniser: lexer + the parser at doc = true (Proofs.v: it decides Doc_start) *)
@@ -139,7 +164,10 @@ Definition doc_parse (s : list chr) : option (list tok * tree) :=
 (* codes:
    1  in the documented language, rejected, and a "*" stands inside brackets        (F10)
    2  not in the documented language but accepted
-   3  in the language, parsed, but compile_str raises; the denoted path list has a repeated path
+   3  in the language, parsed, but compile_str raises; the alternatives after some connector repeat a pattern (F17)
+   18 in the language, parsed, compile_str raises, a path is repeated but the text has no connector ("a, a")
+   19 in the language, parsed, compile_str raises, a path is repeated, but not among the alternatives after a connector
+      ("x.y, x.y", "[a,a]:b")
    4  accepted, but the observed paths (with notify flags) are not the documented ones
    5  in the language, parsed, compile_str raises although all denoted paths are distinct
    6  in the documented language, rejected, no "*" inside brackets
@@ -155,7 +183,8 @@ Definition law_single (s : list chr) (o : outcome) : list Z :=
   | Some (ts, t) =>
       match o with
       | Rejected => if star_in_brackets 0 ts then [1] else [6]
-      | CompileError => if has_dup (doc_paths t) then [3] else [5]
+      | CompileError => if has_dup (doc_paths t)
+                        then (if has_series t then (if dup_right t then [3] else [19]) else [18]) else [5]
       | Graphs gs => chk 4 (path_set_eqb (flat_map graph_paths gs) (doc_paths t))
       | Crashed => [11]
       end
@@ -166,7 +195,7 @@ Definition law_single (s : list chr) (o : outcome) : list Z :=
 Definition law_expr (e : expr) (o : outcome) : list Z :=
   match o with
   | Graphs gs => chk 4 (path_set_eqb (flat_map graph_paths gs) (paths e))
-  | CompileError => if has_dup (paths e) then [3] else [5]
+  | CompileError => if has_dup (paths e) then (if dup_right_e e then [3] else [19]) else [5]
   | _ => [11]
   end.
 
@@ -229,7 +258,8 @@ Definition doc_hooks (h : heap) (o : nat) (t : tree) : list hit := flat_map (hoo
      t_absent (no metadata) t_other (other=1)                                   (trait numbers 0..7)
    object 0 = the root: a Leaf with in addition child (8) holding object 1, kids (10) holding the list 2 = [3; 4],
    table (11) holding the dict 5 with the value 6, group (12) holding the set 7 = {8}; objects 1, 3, 4, 6, 8 are Leafs.
-   A change of trait number i of object v is reported as 16*v + i; a mutation of the container v as 16*v + 9. *)
+   A change of trait number i of object v is reported as 32*v + i; a mutation of the container v as 32*v + 9;
+   a change reported for an object after it was replaced (no longer reachable from the root) as 1000 + that. *)
 Definition probe_names : list word :=
   [[116; 95; 116; 114; 117; 101]; [116; 95; 102; 97; 108; 115; 101]; [116; 95; 122; 101; 114; 111]; [116; 95; 101; 109; 112; 116; 121]; [116; 95; 116; 117; 112; 108; 101]; [116; 95; 110; 111; 110; 101]; [116; 95; 97; 98; 115; 101; 110; 116]; [116; 95; 111; 116; 104; 101; 114]].
 Definition w_child : word := [99; 104; 105; 108; 100].
@@ -238,11 +268,17 @@ Definition w_table : word := [116; 97; 98; 108; 101].
 Definition w_group : word := [103; 114; 111; 117; 112].
 Definition w_tag : word := [116; 97; 103].
 Definition w_other : word := [111; 116; 104; 101; 114].
+Definition w_tadded : word := [116; 114; 97; 105; 116; 95; 97; 100; 100; 101; 100].
+Definition w_tmod : word := [116; 114; 97; 105; 116; 95; 109; 111; 100; 105; 102; 105; 101; 100].
+Definition w_new : word := [122; 122; 95; 110; 101; 119].
+(* every HasTraits object also carries the events trait_added (13) and trait_modified (14), and the driver adds a trait
+   zz_new (16) to every Leaf with add_trait after the registration ("*" matches any trait, also one added later) *)
 Definition leaf_traits : list tdesc :=
   map (fun nv => mkT (fst nv) (snd nv) None)
       (combine probe_names
          [[(w_tag, MVTruthy)]; [(w_tag, MVFalsy)]; [(w_tag, MVFalsy)]; [(w_tag, MVFalsy)]; [(w_tag, MVFalsy)];
-          [(w_tag, MVNone)]; []; [(w_other, MVTruthy)]]).
+          [(w_tag, MVNone)]; []; [(w_other, MVTruthy)]])
+  ++ [mkT w_tadded [] None; mkT w_tmod [] None; mkT w_new [] None].
 Definition probe_heap : heap :=
   [OTraits (leaf_traits ++ [mkT w_child [] (Some 1%nat); mkT w_kids [] (Some 2%nat); mkT w_table [] (Some 5%nat);
                             mkT w_group [] (Some 7%nat)]);
@@ -250,13 +286,14 @@ Definition probe_heap : heap :=
    ODict [6%nat]; OTraits leaf_traits; OSet [8%nat]; OTraits leaf_traits].
 
 Fixpoint index_of (w : word) (l : list word) (i : Z) : Z :=
-  match l with [] => 15 | x :: r => if word_eqb x w then i else index_of w r (i + 1) end.
+  match l with [] => 31 | x :: r => if word_eqb x w then i else index_of w r (i + 1) end.
 Definition hit_code (x : hit) : option Z :=
   match x with
-  | Hit o w => Some (16 * Z.of_nat o +
+  | Hit o w => Some (32 * Z.of_nat o +
                      (if word_eqb w w_child then 8 else if word_eqb w [] then 9 else if word_eqb w w_kids then 10
                       else if word_eqb w w_table then 11 else if word_eqb w w_group then 12
-                      else index_of w probe_names 0))
+                      else if word_eqb w w_tadded then 13 else if word_eqb w w_tmod then 14
+                      else if word_eqb w w_new then 16 else index_of w probe_names 0))
   | Err _ _ => None
   end.
 Definition has_err (l : list hit) : bool := existsb (fun x => match x with Err _ _ => true | _ => false end) l.
